@@ -22,6 +22,9 @@ def models(tier):
         return [
             ("content", dict(Names=NAMES3, MaxLev=2, MaxBox=2, MaxFile=2, MaxVars=2, W=2,
                              SchedMode='"fifo"', Gather='"by_task"'), 1),
+            # variable lists as long as the field list (every permutation of all the fields, unknown names mixed in)
+            ("content-vars3", dict(Names=NAMES3, MaxLev=1, MaxBox=2, MaxFile=2, MaxVars=3, W=2,
+                                   SchedMode='"fifo"', Gather='"by_task"'), 1),
             ("schedules", dict(Names='<<"a","b">>', MaxLev=1, MaxBox=3, MaxFile=3, MaxVars=1, W=2,
                                SchedMode='"all"', Gather='"by_task"'), 1),
         ]
